@@ -756,10 +756,11 @@ impl Decoder for RawResponseMessageDecoder {
                 };
                 Ok(Some(BytesResponseMessage::unlinked(target, path, body)))
             }
-            _ => {
+            EVENT => {
                 let body = src.split_to(body_len).freeze();
                 Ok(Some(BytesResponseMessage::event(target, path, body)))
             }
+            _ => Err(std::io::Error::from(std::io::ErrorKind::InvalidData)),
         }
     }
 }
@@ -799,10 +800,11 @@ impl Decoder for RawRequestMessageDecoder {
             LINK => Ok(Some(RequestMessage::link(origin, path))),
             SYNC => Ok(Some(RequestMessage::sync(origin, path))),
             UNLINK => Ok(Some(RequestMessage::unlink(origin, path))),
-            _ => {
+            COMMAND => {
                 let body = src.split_to(body_len).freeze();
                 Ok(Some(RequestMessage::command(origin, path, body)))
             }
+            _ => Err(std::io::Error::from(std::io::ErrorKind::InvalidData)),
         }
     }
 }
